@@ -6,17 +6,19 @@
 // (await_ready / await_suspend / await_resume), so the replayer runs them as separate steps with
 // publisher actions in between ("split" style): this reaches the windows between ready() and
 // subscribe(), and between the wake-up and check_next(), without threads.  The whole-call forms
-// are replayed with the real calls: `co_await sub.next()` in a real coroutine ("coro"),
+// are replayed with the real calls: `co_await sub.next()` in a real coroutine, once per action
+// ("coro") or as `while (co_await sub.next())` that carries on inside the publisher's wake-up and
+// parks again before publish() returns ("loop"),
 // `bool(sub.next())` in a helper thread that is parked for real when it has to wait ("block";
 // the main thread proceeds only when the helper has registered its sync_awaiter, and waits for the
 // helper to return right after the action that wakes it), and next_ready() ("poll").
 //
 // header: {"min":n,"max":n (99 = unlimited),"wake":"fn"|"handle","single":"rvalue"|"lvalue"|"range"}
 // actions: SubscribeRecent(s,mode) SubscribeAt(s,pos,mode) SubscribeCopy(c,o) Leave(s) Ready(s)
-//          Subscribe(s) Fetch(s) Poll(s) NextWhole(s,style) PushCS(n) Close(how) KickCS(s,via)
+//          Subscribe(s) Fetch(s) Poll(s) NextWhole(s,style) PushCS(n) Close(how) KickCS(s,via) KickGone
 //          (Wake / WFetch steps are merged into the step that caused them)
 // projection: {"closed","nextFree","pos","pubAlive","q":[...],
-//              "regs":[{"awt":subscriber id|0,"kicked","pos","used"}...],      (awt/kicked masked when !used)
+//              "regs":[{"awt":subscriber id|0,"kicked","pos","used"}...],
 //              "subs":{"<id>":{"hnd","mode","pc","recv":[...],"res","wakes"}}}  (live subscribers)
 #include <cocls/publisher.h>
 #include "replay_common.h"
@@ -88,7 +90,13 @@ static const long SPIN_LIMIT = 20000000L;   // yields; a legal hand-over takes a
 
 struct Sub {
     int id = 0;
-    std::unique_ptr<SubProbe> obj;
+    // the subscriber lives in storage that is never reused within a scenario, so that the pointer of
+    // a destroyed subscriber stays a pointer to "already released memory" that nobody else owns
+    alignas(SubProbe) unsigned char store[sizeof(SubProbe)];
+    SubProbe *obj = nullptr;
+    template <typename... A> void make(A &&... a) { obj = new (store) SubProbe(std::forward<A>(a)...); }
+    void unmake() { if (obj) { obj->~SubProbe(); obj = nullptr; } }
+    ~Sub() { unmake(); }
     std::string pc = "idle";
     std::string res = "none";
     std::vector<int> recv;
@@ -98,8 +106,8 @@ struct Sub {
     // split style: the awaiter object of the call in progress
     std::optional<SubT::next_awt> awt;
     Co dummy;                   // a real suspended coroutine whose handle is registered ("handle" wake style)
-    // coro style
-    Co reader;
+    // coro / loop style
+    Co reader, looper;
     bool in_next = false;
     // block style
     std::thread th;
@@ -147,10 +155,25 @@ static Co reader_body(Sub *s) {
     }
 }
 
+static Co looper_body(Sub *s) {
+    co_await std::suspend_always{};         // wait for the replayer's NextWhole(s,"loop")
+    for (;;) {
+        s->in_next = true;
+        bool r = co_await s->obj->next();
+        s->in_next = false;
+        s->res = "none";
+        if (!r) { s->pc = "eos"; break; }
+        s->recv.push_back(s->obj->value());
+    }
+}
+
 struct World {
     std::unique_ptr<Pub> pub;
     std::shared_ptr<Queue> qp;
     std::map<int, std::unique_ptr<Sub>> subs;
+    std::vector<std::unique_ptr<Sub>> graveyard;     // records of destroyed subscribers (storage stays reserved)
+    std::map<std::size_t, int> slot_last_left;       // slot -> identity of the subscriber that left it last
+    const SubT *stale = nullptr;                     // pointer of the subscriber destroyed last
     std::string wake_style = "fn", single = "rvalue";
     int npub = 0;
     bool hung = false;
@@ -179,8 +202,13 @@ struct World {
             J jr = J::map();
             jr.set("pos", r._pos);
             jr.set("used", r._used);
-            jr.set("kicked", r._used ? r._kicked : false);
+            jr.set("kicked", r._kicked);
             int owner = 0;
+            if (!r._used && r._awt) {
+                // stale awaiter pointer of a subscriber that was destroyed while parked
+                auto it = slot_last_left.find(i);
+                owner = it == slot_last_left.end() ? -4 : it->second;
+            }
             if (r._used && r._awt) {
                 owner = -1;
                 for (auto &kv : subs) {
@@ -189,7 +217,7 @@ struct World {
                         owner = s.id;
                         if (s.pc == "parked" && wake_style == "fn" &&
                             (!s.awt || r._awt != static_cast<cocls::awaiter *>(&*s.awt))) owner = -2;
-                        if (r._sub != static_cast<const SubT *>(s.obj.get())) owner = -3;
+                        if (r._sub != static_cast<const SubT *>(s.obj)) owner = -3;
                     }
                 }
             }
@@ -219,6 +247,7 @@ struct World {
 
     Sub &fresh(int id) {
         auto &p = subs[id];
+        if (p) graveyard.push_back(std::move(p));
         p.reset(new Sub());
         p->id = id;
         return *p;
@@ -228,6 +257,8 @@ struct World {
         s.dummy.h.resume();      // runs to its first suspension: from now on a suspended coroutine
         s.reader = reader_body(&s);
         s.reader.h.resume();
+        s.looper = looper_body(&s);
+        s.looper.h.resume();
     }
 
     // blocking next() in a helper thread: returns when the call returned or parked for real
@@ -266,17 +297,22 @@ struct World {
     void leave(Sub &s) {
         s.awt.reset();
         s.reader.reset();       // destroys a coroutine parked in co_await next() together with its awaiter
+        s.looper.reset();
         s.dummy.reset();
-        s.obj.reset();
+        if (s.obj) {
+            slot_last_left[s.obj->_h] = s.id;
+            stale = s.obj;
+        }
+        s.unmake();
     }
 
     bool step(const Step &st, Reporter &rep, std::size_t k) {
         const std::string &a = st.name;
         if (a == "SubscribeRecent" || a == "SubscribeAt" || a == "SubscribeCopy") {
             Sub &s = fresh(st.iarg(0));
-            if (a == "SubscribeRecent") s.obj.reset(new SubProbe(*pub, mode_of(st.sarg(1))));
-            else if (a == "SubscribeAt") s.obj.reset(new SubProbe(*pub, (std::size_t) st.iarg(1), mode_of(st.sarg(2))));
-            else s.obj.reset(new SubProbe(*subs.at(st.iarg(1))->obj));
+            if (a == "SubscribeRecent") s.make(*pub, mode_of(st.sarg(1)));
+            else if (a == "SubscribeAt") s.make(*pub, (std::size_t) st.iarg(1), mode_of(st.sarg(2)));
+            else s.make(static_cast<const SubProbe &>(*subs.at(st.iarg(1))->obj));
             equip(s);
             return true;
         }
@@ -292,6 +328,11 @@ struct World {
             settle_blocked();
             return true;
         }
+        if (a == "KickGone") {
+            pub->kick(stale);       // documented: an invalid pointer is fine, nothing happens
+            settle_blocked();
+            return true;
+        }
         if (a == "Close") {
             if (st.sarg(0) == "close") pub->close(); else pub.reset();
             settle_blocked();
@@ -301,7 +342,7 @@ struct World {
         if (it == subs.end() || !it->second->obj) { rep.error(k, "no such subscriber"); return false; }
         Sub &s = *it->second;
         if (a == "KickCS") {
-            if (st.sarg(1) == "pub") pub->kick(s.obj.get()); else s.obj->kick_me();
+            if (st.sarg(1) == "pub") pub->kick(s.obj); else s.obj->kick_me();
             settle_blocked();
         } else if (a == "Leave") {
             leave(s);
@@ -328,6 +369,9 @@ struct World {
             if (st.sarg(1) == "coro") {
                 s.reader.h.resume();
                 if (s.in_next) { s.pc = "parked_c"; s.parks++; }
+            } else if (st.sarg(1) == "loop") {
+                s.looper.h.resume();        // runs until it parks (also again, inside later wake-ups) or ends
+                if (s.in_next) s.pc = "parked_l";
             } else {
                 next_block(s);
             }
@@ -368,8 +412,10 @@ struct World {
             qp->close();
             settle_blocked();
             for (auto &kv : subs) {
-                if (kv.second->obj && kv.second->pc == "parked_b" && !rep.failed())
-                    rep.diverge(sc.steps.size() - 1, "close() did not wake a thread blocked in next()");
+                if (kv.second->obj && kv.second->pc == "parked_b") {
+                    if (!rep.failed()) rep.diverge(sc.steps.size() - 1, "close() did not wake a thread blocked in next()");
+                    hung = true;
+                }
             }
             if (hung) {
                 fprintf(stderr, "helper thread stuck at the end of scenario %s\n", sc.id.c_str());
@@ -379,6 +425,7 @@ struct World {
         }
         for (auto &kv : subs) if (kv.second->obj) leave(*kv.second);
         subs.clear();
+        graveyard.clear();
         pub.reset();
         qp.reset();
     }
